@@ -1,16 +1,18 @@
 #!/bin/bash
-# runs the quick check(s) of the broken property against every stored seeded change; writes selftest/seed_results.txt
+# runs the quick check of the broken property against every stored seeded change, on a scratch copy of /repo
+# (PYVC_REPO points the verifier and the run-time searchers at it); writes selftest/seed_results.txt
 cd /verif
 out=selftest/seed_results.txt
-: > $out
+[ -z "${1:-}" ] && : > $out
 for d in seeded/*/; do
   id=$(basename $d)
   [ -n "${1:-}" ] && [[ "$id" != $1* ]] && continue
   prop=$(python3 -c "import json;print(json.load(open('$d/meta.json'))['property'])")
-  git -C /repo apply $d/patch.diff || { echo "$id: patch does not apply" >> $out; continue; }
-  r=$(./check $prop --quick 2>&1 | grep -E "VIOLATION|failed obligation|UNDECIDED|CHECKER|property=" | head -8 | tr '\n' '|')
-  git -C /repo checkout -- .
+  scr=/tmp/seedrun_$id
+  rm -rf $scr; mkdir -p $scr; cp -r /repo/PyXAB $scr/
+  (cd $scr && git init -q . && git apply /verif/$d/patch.diff) || { echo "$id: patch does not apply" >> $out; rm -rf $scr; continue; }
+  r=$(PYVC_REPO=$scr ./check $prop --quick 2>&1 | grep -E "VIOLATION|failed obligation|UNDECIDED|CHECKER|contract not|property=" | head -8 | tr '\n' '|')
+  rm -rf $scr
   echo "$id [$prop]: $r" >> $out
 done
-git -C /repo status --short >> $out
 cat $out
